@@ -205,9 +205,52 @@ def rule_b(ctx):
                     ok_exp = False
                 if 'maximum_lease_time' not in repr(k) or '_lease_created_at' not in repr(k):
                     ok_exp = False
+    # ... and the test is exact: the whole elapsed time against the whole time-to-live.  timedelta.seconds / .days /
+    # .microseconds are components, not the duration: comparing one of them rounds the age of the lease down.
+    def _unwrap_seconds(t):
+        t = strip_epoch(t)
+        if isinstance(t, tuple) and t and t[0] == 'pure' and t[1] == 'total_seconds':
+            return strip_epoch(t[2]), True
+        return t, False
+
+    def _is_now(t):
+        return isinstance(t, tuple) and t and t[0] == 'call' and 'now' in str(t[1])
+
+    CRE = ('attr', ('self',), '_lease_created_at')
+    TTL = ('attr', ('self',), 'maximum_lease_time')
+    n_exp = 0
+    for p in paths:
+        seen_here = 0
+        for e in p.events:
+            if e.kind != 'cond' or 'now' not in repr(e.data['key']):
+                continue
+            k = strip_epoch(e.data['key'])
+            if k[0] not in ('lt', 'le', 'gt', 'ge') or len(k) != 3:
+                ok_exp = False
+                continue
+            (a, wa), (b, wb) = _unwrap_seconds(k[1]), _unwrap_seconds(k[2])
+            if wa != wb:
+                ok_exp = False
+                continue
+            sides = [a, b]
+            sum_form = any(_is_now(x) for x in sides) and any(
+                isinstance(x, tuple) and x[0] == 'op' and x[1] == 'Add' and {strip_epoch(x[2]), strip_epoch(x[3])} ==
+                {CRE, TTL} for x in sides)
+            diff_form = TTL in sides and any(
+                isinstance(x, tuple) and x[0] == 'op' and x[1] == 'Sub' and _is_now(strip_epoch(x[2])) and
+                strip_epoch(x[3]) == CRE for x in sides)
+            if not (sum_form or diff_form):
+                ok_exp = False
+            else:
+                seen_here += 1
+        if seen_here:
+            n_exp += 1
+    if n_exp != len(paths):
+        ok_exp = False
     rep.add('C14.b', 'DefinedLease.is_request_allowed / expired lease refuses', f, ok_exp,
             'once creation time + time-to-live is not after now, every path refuses' if ok_exp else
-            'an expired lease can still accept a request (or the expiry does not use creation time + time-to-live)')
+            'an expired lease can still accept a request (or the expiry test is not the whole elapsed time against the '
+            'whole time-to-live: now vs created + ttl, or now - created vs ttl)')
 
 
 def rule_c(ctx):
